@@ -257,6 +257,9 @@ func cleanPats(pats [][]*Term) [][]*Term {
 }
 
 func hasInterp(t *Term) bool {
+	if strings.HasPrefix(t.Op, "len_Slice_") || strings.HasPrefix(t.Op, "isnil_Slice_") {
+		return true // defined functions that expand to if-then-else
+	}
 	switch t.Op {
 	case "+", "-", "*", "ite", "and", "or", "not", "=", "<", "<=", ">", ">=", "div", "mod", "=>", "forall", "exists", "distinct":
 		if len(t.Args) > 0 {
@@ -346,6 +349,7 @@ type SMT struct {
 	strLits  map[string]*Term
 	tags     map[string]*Term // type tags
 	tagList  []string
+	lastLib  []string // names of the assumed (library) axioms included by the last preamble call
 }
 
 type Axiom struct {
@@ -466,6 +470,10 @@ func (s *SMT) strLit(v string) *Term {
 		}
 	}
 	s.axiom("lit:"+name, "(and "+strings.Join(facts, " ")+")", false, name)
+	if v == "" {
+		// the empty string is the only string of length 0
+		s.axiom("lit:empty_unique", fmt.Sprintf("(forall ((s Str)) (! (=> (= (slen s) 0) (= s %s)) :pattern ((slen s))))", name), false, name)
+	}
 	return t
 }
 
@@ -504,6 +512,7 @@ func (s *SMT) tagDistinct() string {
 
 // preamble renders the declarations and the axioms relevant to the given query body.
 func (s *SMT) preamble(body string) string {
+	s.lastLib = nil
 	syms := map[string]bool{}
 	symbolsOf(body, syms)
 	for _, d := range s.decls {
@@ -569,6 +578,9 @@ func (s *SMT) preamble(body string) string {
 	for i, a := range s.axioms {
 		if included[i] {
 			sb.WriteString("(assert " + a.Text + ") ; " + a.Name + "\n")
+			if a.Lib {
+				s.lastLib = append(s.lastLib, a.Name)
+			}
 		}
 	}
 	return sb.String()
